@@ -109,6 +109,20 @@ def generate(rng, n, tier="quick"):
             case = {"kind": "session", "regs": [{"escape": "html"}], "ops": ops, "id": "%s-deepup%03d" % (ID, kk)}
             kk += 1
             out.append((case, {"mode": "ast", "strict": ["any", "over-deep ../"], "loose": ["any", "over-deep ../"]}))
+    # the family of the Lean theorem C10.strict_each_on_missing_fails_at_source: L ++ {{#each v}}A{{/each}} ++ R on data without `v`:
+    # non-strict renders L ++ R, strict fails with MissingVariable("v") naming the template after exactly L was written
+    from .C03 import thm_left, thm_right
+    for k in range(40 if tier == "quick" else 1000):
+        r = rng.fork("thm%d" % k)
+        L, R = thm_left(r), thm_right(r)
+        src = L + "{{#each v}}A{{/each}}" + R
+        d = r.pick([{}, {"w": 1}, {"V": [1]}, {"v ": [1]}])
+        ops = [{"op": "reg_string", "reg": 0, "name": "main", "src": src},
+               {"op": "render", "reg": 0, "api": "render_to_write", "name": "main", "data": enc(d)},
+               {"op": "set_strict", "reg": 0, "v": True},
+               {"op": "render", "reg": 0, "api": "render_to_write", "name": "main", "data": enc(d)}]
+        case = {"kind": "session", "regs": [{"escape": r.pick(["html", "none"])}], "ops": ops, "id": "%s-thm%04d" % (ID, k)}
+        out.append((case, {"mode": "thm", "strict": ["any", ""], "loose": ["must", L + R], "L": L}))
     return out
 
 
@@ -117,6 +131,15 @@ def oracle(case, meta, impl):
         return ["no result"]
     rs = impl["results"]
     loose, strict = rs[-3], rs[-1]
+    if meta["mode"] == "thm":
+        v = []
+        if not (loose.get("r") == "ok" and loose.get("out") == meta["loose"][1]):
+            v.append("each on a missing value (theorem family): non-strict expected %r got %r" % (meta["loose"][1], loose.get("out", loose.get("reason"))))
+        if not (strict.get("r") == "rerr" and strict.get("reason") == "MissingVariable" and (strict.get("args") or [None])[0] == "v"
+                and strict.get("name") == "main" and strict.get("written") == meta["L"]):
+            v.append("each on a missing value (theorem family): strict expected MissingVariable(v) in main after %r, got %s %s %s name=%s written=%r" % (
+                meta["L"], strict.get("r"), strict.get("reason"), strict.get("args"), strict.get("name"), strict.get("written", strict.get("out"))))
+        return v
     if loose.get("reason") == "TemplateNotFound":
         return None
     v = []
